@@ -8,6 +8,7 @@ namespace CimbaModel.Experiment
 
 def currentCode : Code :=
   { fetchMode := Generated.fetchMode, fetchIncr := Generated.fetchIncr, initNext := Generated.initNext,
+    resetsNext := Generated.resetsCounterEachRun,
     stopWhen := Generated.stopWhen, elemAddr := Generated.elemAddr,
     spawnStart := Generated.spawnStart, spawnCond := Generated.spawnCond,
     joinStart := Generated.joinStart, joinCond := Generated.joinCond }
